@@ -15,6 +15,7 @@ From Coq Require Import ZArith List Bool.
 From Coq.Strings Require Import Byte String.
 From TS Require Import Bytes State Prog Ops Interp SigSpec MultisigPure MultisigLink BuilderSpec TapeSteps
   Builders BuilderSpecC13 BuilderSpecC13b TablesCheck.
+From TS Require BuilderSpecC13c.
 Import ListNotations.
 Local Open Scope nat_scope.
 
@@ -238,6 +239,31 @@ Print Assumptions C13_scripthash_committed_script_runs.
 Print Assumptions C13_graftroot_key_path_exact.
 Print Assumptions C13_graftroot_signed_surrogate_runs.
 Print Assumptions C13_graftroot_unsigned_surrogate_never_starts.
+(* ---------- E. graftap lock = taproot lock over the committed script  dup ; swap 1 2 ; push pk ; check_sig_stack ; verify ; eval
+   (proofs/BuilderSpecC13c.v; bytes checked against the real builders by Examples there).  Closed statements printed by Check:
+   key path: True iff the signature is accepted under the root; script path: the pair must recompute to the root, then a
+   surrogate signed by pk runs (call count 2) and decides, any other surrogate never starts; a pair that does not recompute
+   to the root starts nothing. *)
+Definition C13_graftap_bytes := BuilderSpecC13c.graftap_bytes_real.
+Definition C13_graftap_key_path := @BuilderSpecC13c.graftap_key_path_pair.
+Definition C13_graftap_wrong_commitment_never_starts := @BuilderSpecC13c.graftap_script_path_wrong_commitment.
+Definition C13_graftap_signed_surrogate_runs := @BuilderSpecC13c.graftap_script_path_runs.
+Definition C13_graftap_unsigned_surrogate_never_starts := @BuilderSpecC13c.graftap_script_path_rejected.
+Definition C13_graftap_pair := @BuilderSpecC13c.graftap_script_path_pair.
+Definition C13_graftap_example := BuilderSpecC13c.graftap_example.
+Check C13_graftap_key_path.
+Check C13_graftap_wrong_commitment_never_starts.
+Check C13_graftap_signed_surrogate_runs.
+Check C13_graftap_unsigned_surrogate_never_starts.
+Check C13_graftap_pair.
+
+Print Assumptions C13_graftap_bytes.
+Print Assumptions C13_graftap_key_path.
+Print Assumptions C13_graftap_wrong_commitment_never_starts.
+Print Assumptions C13_graftap_signed_surrogate_runs.
+Print Assumptions C13_graftap_unsigned_surrogate_never_starts.
+Print Assumptions C13_graftap_pair.
+Print Assumptions C13_graftap_example.
 Print Assumptions C13_single_sig_bytes.
 Print Assumptions C13_single_sig2_bytes.
 Print Assumptions C13_multisig_bytes.
